@@ -6,7 +6,7 @@ hand-written builtin models (SlacModel/Stdlib.lean, StdOrder.lean) equal to the 
 
 Translated: Value::len (value.rs); get_index, get_string_index, default_string, default_number, smart_vec (mod.rs);
             at, between, bool, compare, empty, if_then, length, all, any, max, min, reverse, float, int, copy, count, find, replace, contains, insert, unique (common.rs);
-            is_even, even, odd, pow (math.rs); split, lowercase, uppercase, same_text, trim, trim_left, trim_right (string.rs).
+            is_even, even, odd, pow (math.rs); chr, ord, split, lowercase, uppercase, same_text, trim, trim_left, trim_right (string.rs).
 Reading of Rust beyond tools/rs2lean.py (same conventions: ownership erased, Result = Except, slice patterns matched top to bottom, a guarded
 arm falls through):
   * `x as usize` on an f64 is the saturating cast `NumX.toUsize`; `STRING_OFFSET as usize` is the parameter `off` (1, or 0 with the feature
@@ -84,6 +84,31 @@ class StdCtx(Ctx):
                 pre = ('block', stmts[:i], ('if', st[1][1], ('block', [], ret[1]), ('block', stmts[i + 1:], tail)))
                 return super().block(pre, env)
         return super().block(e, env)
+    def subsumes(self, general, special):
+        """every value matching `special` matches `general` (constructor structure only)"""
+        g, sp = general, special
+        while g[0] == 'pref': g = g[1]
+        while sp[0] == 'pref': sp = sp[1]
+        if g[0] in ('pwild', 'pbind'): return True
+        if g[0] != sp[0]: return False
+        if g[0] == 'pslice': return len(g[1]) == len(sp[1]) and all(self.subsumes(a, b) for a, b in zip(g[1], sp[1]))
+        if g[0] == 'ptuplestruct': return g[1] == sp[1] and len(g[2]) == len(sp[2]) and all(self.subsumes(a, b) for a, b in zip(g[2], sp[2]))
+        if g[0] == 'ppath': return g[1] == sp[1]
+        return False
+    def match(self, e, env, arm_fn=None):
+        # a guarded arm `p if g => b` becomes `p => if g then b else (match scrutinee with the arms below)`; arms below that `p` already covers are dropped
+        # from the outer match (they are reached through the inner one only)
+        scrut, arms = e[1], e[2]
+        if any(g is not None for _, g, _ in arms) and all(len(p) == 1 for p, _, _ in arms) and scrut[0] == 'path':
+            new, covered = [], []
+            for i, (pats, g, body) in enumerate(arms):
+                if any(self.subsumes(c, pats[0]) for c in covered): continue
+                if g is None: new.append((pats, None, body)); continue
+                blk = body if body[0] == 'block' else ('block', [], body)
+                new.append((pats, None, ('if', g, blk, ('block', [], ('match', scrut, arms[i + 1:])))))
+                covered.append(pats[0])
+            return super().match(('match', scrut, new), env, arm_fn)
+        return super().match(e, env, arm_fn)
     STRUCTURAL = ('match', 'if', 'iflet', 'block', 'closure', 'for', 'loop', 'while', 'whilelet')
     def find_tries(self, e, acc):
         # `x?` inside an argument / operand (not under a match / if / block / closure, which are translated structurally): evaluation order
@@ -128,6 +153,8 @@ class StdCtx(Ctx):
             if e[1] == ('path', ['STRING_OFFSET']) and e[2] == 'usize': return 'off', 'usize'
             s, t = self.tx(e[1], env)
             if t == 'f64' and e[2] == 'usize': return f'NumX.toUsize {self.paren(s)}', 'usize'
+            if t == 'f64' and e[2] == 'u32': return f'NumX.toU32 {self.paren(s)}', 'u32'
+            if t == 'char' and e[2] == 'u8': return f'({self.paren(s)}.toNat % 256)', 'u8'                     # `c as u8` truncates to the low byte
             if t == 'ordering' and e[2] == 'i8': return s, 'ordering_i8'
             raise Unrecognised(f'cast of {t} to {e[2]}')
         if k == 'binop' and e[1] == '>=' and e[3] == ('lit', 'num', '0.0'):
@@ -173,6 +200,9 @@ class StdCtx(Ctx):
             if lt == 'f64' and rt == 'f64': return f'NumOps.add {self.paren(l)} {self.paren(r)}', 'f64'
         if k == 'call' and e[1] == ('path', ['Some']) and len(e[2]) == 1:
             s, t = self.tx(e[2][0], env); return f'some {self.paren(s)}', ('opt', t)
+        if k == 'call' and e[1] == ('path', ['f64', 'from']) and len(e[2]) == 1 and e[2][0][0] == 'cast' and e[2][0][2] == 'u8':
+            s, t = self.tx(e[2][0], env)
+            if t == 'u8': return f'NumX.ofNat {self.paren(s)}', 'f64'
         if k == 'call' and e[1] == ('path', ['f64_from_usize']) and len(e[2]) == 1:
             s, t = self.tx(e[2][0], env)
             if t == 'usize': return f'NumX.ofNat {self.paren(s)}', 'f64'
@@ -251,6 +281,21 @@ class StdCtx(Ctx):
         if name == 'replace' and len(args) == 2:
             s, t = self.tx(recv, env); a, at = self.tx(args[0], env); b, bt = self.tx(args[1], env)
             if t == 'str' and at == 'str' and bt == 'str': return f'Seq.replaceSeq {self.paren(a)} {self.paren(b)} {self.paren(s)}', 'str'
+        # `(0.0..=127.0).contains(x)`: the closed ASCII range test of NumX
+        if name == 'contains' and len(args) == 1 and recv == ('binop', '..=', ('lit', 'num', '0.0'), ('lit', 'num', '127.0')):
+            a, at = self.tx(args[0], env)
+            if at == 'f64': return f'NumX.inAscii {self.paren(a)}', 'bool'
+        # `char::from_u32(n).unwrap_or('\0')`: the scalar value n, or NUL when n is not one (surrogate, beyond U+10FFFF) = Lean's Char.ofNat
+        if name == 'unwrap_or' and args == [('lit', 'chr', "'\\0'")] and recv[0] == 'call' and recv[1] == ('path', ['char', 'from_u32']) and len(recv[2]) == 1:
+            n, nt = self.tx(recv[2][0], env)
+            if nt == 'u32': return f'Char.ofNat {self.paren(n)}', 'char'
+        # `s.chars().next().unwrap_or('\0')`: the first character, NUL for the empty text
+        if name == 'unwrap_or' and args == [('lit', 'chr', "'\\0'")] and recv[0] == 'mcall' and recv[2] == 'next' and recv[1][0] == 'mcall' and recv[1][2] == 'chars':
+            s, t = self.tx(recv[1][1], env)
+            if t == 'str': return f'(List.head? {self.paren(s)}).getD (Char.ofNat 0)', 'char'
+        if name == 'is_ascii' and not args:
+            s, t = self.tx(recv, env)
+            if t == 'str': return f'List.all {self.paren(s)} (fun c => decide (c.toNat < 128))', 'bool'
         if name == 'contains' and len(args) == 1:
             s, t = self.tx(recv, env); a, at = self.tx(args[0], env)
             if t == 'str' and at == 'str': return f'Seq.containsSeq {self.paren(a)} {self.paren(s)}', 'bool'          # str::contains(&str): a contiguous occurrence
@@ -342,7 +387,7 @@ def strip_macros(text):
             text = cut(text, m.start(), '(', ')')
     return text
 
-STRING = [('split', 'split'), ('lowercase', 'lowercase'), ('uppercase', 'uppercase'), ('same_text', 'same_text'), ('trim', 'trim'), ('trim_left', 'trim_left'), ('trim_right', 'trim_right')]
+STRING = [('chr', 'chr'), ('ord', 'ord'), ('split', 'split'), ('lowercase', 'lowercase'), ('uppercase', 'uppercase'), ('same_text', 'same_text'), ('trim', 'trim'), ('trim_left', 'trim_left'), ('trim_right', 'trim_right')]
 MATH = [('even', 'even', False), ('odd', 'odd', False), ('pow', 'pow', False)]
 
 def gen_stdlib(srcdir):
